@@ -27,9 +27,9 @@ pub enum Which {
 
 pub struct HistProp(pub Which);
 
-pub fn hist_case_strategy(tier: Tier, budget: f64) -> BoxedStrategy<HistCase> {
+pub fn hist_case_strategy(tier: Tier, budget: f64, malformed: bool) -> BoxedStrategy<HistCase> {
     let max_ops = if tier.thorough() { 120 } else { 40 };
-    (config_strategy(CfgSpace::histories(tier.thorough())), any::<u64>(), ops_strategy(OpSpace::all(), max_ops))
+    (config_strategy(CfgSpace::histories(tier.thorough())), any::<u64>(), ops_strategy(OpSpace { malformed, ..OpSpace::all() }, max_ops))
         .prop_map(move |(mut cfg, seed, ops)| {
             let calls = ops.iter().filter(|o| o.is_call()).count().max(1) as f64;
             // bound the work per case by construction
@@ -62,6 +62,7 @@ fn class_common<T>(o: &mut Outcome, c: &HistCase, tr: &Trace<T>) {
             Op::SetRatio { .. } | Op::SetRatioRaw { .. } => o.class("op:set_ratio(step)"),
             Op::SetChunk { .. } | Op::SetChunkRaw { .. } => o.class("op:set_chunk"),
             Op::Reset => o.class("op:reset"),
+            Op::ShortOut { .. } => o.class("op:process_into_buffer(output too short)"),
         }
     }
     o.count("calls", tr.calls as u64);
@@ -256,6 +257,7 @@ fn run_t<T: SampleX>(w: Which, c0: &HistCase) -> Outcome {
                     if s.alloc != 0 {
                         let what = match (&s.res, s.ratio_set, s.chunk_set) {
                             (StepRes::Reset, _, _) => "reset",
+                            (StepRes::Set(Err(crate::dynres::ErrKind::ShortOut { .. })), _, _) => "process_into_buffer (rejected: output too short)",
                             (_, Some(_), _) => "set_resample_ratio",
                             (_, _, Some(_)) => "set_chunk_size",
                             _ => "setter",
@@ -322,7 +324,7 @@ impl Property for HistProp {
         v
     }
     fn strategy(&self, tier: Tier) -> BoxedStrategy<HistCase> {
-        hist_case_strategy(tier, if tier.thorough() { 4e7 } else { 6e6 })
+        hist_case_strategy(tier, if tier.thorough() { 4e7 } else { 6e6 }, self.0 == Which::C09)
     }
     fn cases(&self, tier: Tier) -> u32 {
         match (self.0, tier) {
